@@ -154,7 +154,8 @@ fn run_entry(prop: &str, scn: &Scenario, n: u64, verif_seed: u64, workers: usize
                     let out = scn.run(Tape::from_seed(seed), want_sample);
                     // determinism recheck on a sample of runs: replay the recorded tape
                     let recheck = if i % 97 == 0 {
-                        let o2 = scn.run(Tape::replay(out.tape.clone()), false);
+                        let t = out.recheck_tape.clone().unwrap_or_else(|| out.tape.clone());
+                        let o2 = scn.run(Tape::replay(t), false);
                         Some(o2.log_hash)
                     } else {
                         None
